@@ -83,6 +83,8 @@ type zzC03Pat struct {
 	Qt string `json:"qt"`
 	// Wl marks an exception rule ("@@...").
 	Wl bool `json:"wl"`
+	// Fq marks an exact name / wildcard written with the final dot.
+	Fq bool `json:"fq"`
 }
 
 // zzC03Vec is one vector emitted by TLC: either the universe or one
@@ -803,6 +805,10 @@ func (c *zzC03Conc) pattern(p zzC03Pat) (s string) {
 		s = "||*^"
 	default:
 		s = n
+	}
+
+	if p.Fq && (p.K == "exact" || p.K == "wild") {
+		s += "."
 	}
 
 	if p.Qt != "" {
@@ -1667,6 +1673,10 @@ func zzC03Sig(level string, v *zzC03Vec, ar *zzC03AReq, want []string, got strin
 		if p.Wl && !strings.Contains(trig, "X") {
 			trig += "X"
 		}
+
+		if p.Fq && !strings.Contains(trig, "F") {
+			trig += "F"
+		}
 	}
 
 	if ar.ID == zzC03BadID {
@@ -2424,6 +2434,11 @@ func zzC03RandLists(rng *rand.Rand, w int) (v *zzC03Vec) {
 			}
 		}
 
+		if p.K != "domain" && p.Qt == "" && rng.Intn(4) == 0 {
+			// Written fully qualified, with the final dot.
+			p.Fq = true
+		}
+
 		if p.K == "domain" && rng.Intn(5) == 0 {
 			// An exception rule: often inside a name that a rule of the list
 			// blocks, sometimes with no blocking rule around it.
@@ -2476,6 +2491,10 @@ func zzC03ParsePattern(str string) (p zzC03Pat) {
 		p.K, str = "wild", str[2:]
 	default:
 		p.K = "exact"
+	}
+
+	if (p.K == "exact" || p.K == "wild") && strings.HasSuffix(str, ".") {
+		p.Fq, str = true, strings.TrimSuffix(str, ".")
 	}
 
 	p.N = strings.Split(str, ".")
